@@ -362,6 +362,9 @@ def run(ctx):
     from .c06 import memo_rule
     memo_rule(ctx, 'R05d', 'MPS._get_single_cost',
               ctx.repo.cls('MPS').methods['_get_single_cost'], 1, 2)
+    from .c04 import accumulation_rule
+    accumulation_rule(ctx, 'R05e', 'MPS._get_single_cost',
+                      ctx.repo.cls('MPS').methods['_get_single_cost'])
     r05a(ctx)
     r05b(ctx)
     r05c(ctx)
